@@ -218,7 +218,7 @@ struct Session {
    void crashed() {
       gSeam->crashAfter = 0;
       pol.reset();               // the log file is closed while generations are rolled: nothing is buffered
-      vj::Line().str("e", "Crash").raw("log", projection()).emit();
+      vj::Line().str("e", "Kill").raw("log", projection()).emit();
    }
    void close() {
       if (!pol) return;
